@@ -442,6 +442,29 @@ pub fn run(ctx: &mut Ctx) {
         let st = refjson::Style { ws: 1, esc: 1, numvar: true };
         let text = refjson::to_text(&finite, &st, &mut rng, false);
         text_fallback(ctx, &text, "generated");
+        // damaged text reaches the same fallback: an error or a value, never a panic
+        for _ in 0..3 {
+            let mut m = text.clone();
+            if !m.is_empty() {
+                let at = rng.below(m.len());
+                match rng.below(4) {
+                    0 => m.truncate(at),
+                    1 => {
+                        m.remove(at);
+                    }
+                    2 => m[at] = *rng.pick(b"\"\\{}[],:u \xff\x00"),
+                    _ => {
+                        let esc: &[u8] = *rng.pick(&[&b"\\u{1F60\""[..], b"\\u{0041\"", b"\\uD83D\\u{DE00\"", b"\\u\"", b"\\u12\"", b"\\ud83c\\udfff"]);
+                        let tail = m.split_off(at);
+                        m.extend_from_slice(esc);
+                        m.extend_from_slice(&tail);
+                    }
+                }
+            }
+            if !matches!(m.first(), Some(0x20) | Some(0x40) | Some(0x80)) {
+                hostile(ctx, &m, "damaged-text");
+            }
+        }
         // white space the text parser skips in front of a value, other than a space: plain,
         // form feed, and the escaped spellings its change log lists
         {
